@@ -280,6 +280,8 @@ deriving DecidableEq, Repr
 
 def lockedProg : List Act := [.acq, .load, .store, .ret, .rel]
 def unlockedProg : List Act := [.load, .store, .ret]
+/-- the value is read for `return` after the lock was released -/
+def lateReadProg : List Act := [.acq, .load, .store, .rel, .ret]
 
 structure Thr where
   pc : Nat := 0
